@@ -408,6 +408,11 @@ def exec_for(ctx, fr, s):
     if isinstance(it, SList):
         for k in range(it.cap):
             lp.cont = False
+            if it.home is not None and it.mask is None:
+                # python's list iterator is index based and sees mutations made by the loop body:
+                # re-read the list object of the heap field at every step
+                _, c_, f_, t_ = it.home
+                it, _ok = ctx.h.read_list(Ref(t_, (c_,)), f_)
             fr.g = AND(g0, present(it, k))
             if live(ctx, fr) is False:
                 continue
@@ -839,7 +844,13 @@ def get_attr(ctx, fr, obj, name):
         return get_attr(ctx, fr, obj.f["__fwd__"], name)
     if isinstance(obj, Local):
         if name in obj.f:
-            return obj.f[name]
+            v = obj.f[name]
+            if isinstance(v, SList) and v.home is not None:
+                # a view keeps a reference to the list OBJECT of a heap field: read its current contents
+                _, c_, f_, t_ = v.home
+                cur, _ok = ctx.h.read_list(Ref(t_, (c_,)), f_)
+                return cur
+            return v
         if name == "__class__":
             return obj.cls
         for k in obj.cls.__mro__:
